@@ -4,8 +4,10 @@ CONSTANTS
   Threads = {1, 2}
   CompilerScope = "per execution"
   ColumnMemo = "none"
+  ParserScope = "per call"
+  ScanMemo = "none"
   JobSet = "3rows"
 SPECIFICATION FairSpec
-INVARIANTS TypeOK SerialInv OwnParameters OwnRow
+INVARIANTS TypeOK SerialInv OwnParameters OwnRow OwnStatement
 PROPERTIES NonInterference NoSharedState JobConstant Termination
 CHECK_DEADLOCK FALSE
